@@ -22,6 +22,7 @@ def Op.toA : Op K V → AOp K V
   | .pop k d => .pop k d | .popitem => .popitem | .reorder o => .reorder (absOf o)
   | .reorderBad => .reorderBad | .setdefault k d => .setdefault k d | .update ps => .update ps
   | .eq o => .eq (absOf o) | .reversed => .reversed | .ior ps => .ior ps | .or ps => .or ps
+  | .pickle => .pickle | .pickleLegacy => .pickleLegacy
 
 /-- objects passed by reference are well formed -/
 def Op.ArgsInv : Op K V → Prop
@@ -159,6 +160,25 @@ theorem C39_odict_refines_ordered_map (s : OD K V) (m : List (K × V)) (op : Op 
     have hu := hc.update ps
     simp only [OD.step, OD.copy, h.items, Op.toA, Spec.step, Out.toA, Out.ObjInv]
     exact ⟨h, by rw [(rel_iff.1 hu).2], hu.inv⟩
+  | pickle =>
+    have hc : Rel (OD.init m) m := by
+      have := Rel.init (K := K) (V := V) m; rwa [fromPairs_self m h.nodupM] at this
+    have hu := hc.update m
+    rw [foldl_dset_sub h.nodupM m (fun p hp => hp)] at hu
+    simp only [OD.step, OD.unpickle, h.items, Op.toA, Spec.step, Out.ofObj, Out.toA, Out.ObjInv]
+    exact ⟨h, by rw [show OD.update (OD.update OD.empty m) m = OD.update (OD.init m) m from rfl, (rel_iff.1 hu).2], hu.inv⟩
+  | pickleLegacy =>
+    cases hm : m with
+    | nil =>
+      subst hm
+      simp only [OD.step, OD.unpickleLegacy, h.items, Op.toA, Spec.step, Out.ofObj, Out.toA, Out.ObjInv]
+      exact ⟨h, rfl, trivial⟩
+    | cons p t =>
+      have hu := Rel.rawFilled m h.nodupM
+      rw [hm] at hu
+      have hi := h.items; rw [hm] at hi
+      simp only [OD.step, OD.unpickleLegacy, hi, Op.toA, Spec.step, Out.ofObj, Out.toA, Out.ObjInv]
+      exact ⟨hm ▸ h, by simp [(rel_iff.1 hu).2], hu.inv⟩
 
 /-- **odict, every history**: any sequence of calls on a well formed odict is matched call by call by the
 reference ordered dictionary: same results/exceptions, same final contents. -/
@@ -367,6 +387,38 @@ theorem C39_lodict_refines_lowered_map (hl : ∀ k, lower (lower k) = lower k)
     subst u1
     simp only [Out.toA, Out.ObjLowered]
     exact ⟨h, by rw [(rel_iff.1 u2).2], u2.inv, hlu⟩
+  | pickle =>
+    have hfp : Spec.fromPairs (m.map (lo lower)) = m := by
+      rw [map_lo_of_lowered hlm, fromPairs_self m h.nodupM]
+    have hc : Rel (OD.init m) m := by
+      have := Rel.init (K := K) (V := V) m; rwa [fromPairs_self m h.nodupM] at this
+    have hu := hc.update m
+    rw [foldl_dset_sub h.nodupM m (fun p hp => hp)] at hu
+    have e1 : m.foldl (fun t p => LOD.setitem lower t p.1 p.2) (OD.empty : OD K V) = OD.init m := by
+      have : m.foldl (fun t p => LOD.setitem lower t p.1 p.2) (OD.empty : OD K V)
+          = OD.update OD.empty (m.map (lo lower)) := by
+        simp [OD.update, List.foldl_map, lo, LOD.setitem]
+      rw [this, map_lo_of_lowered hlm]; rfl
+    simp only [LOD.step, LOD.unpickle, h.items, e1, LOD.update_eq hl, hfp, Op.toA, AOp.lower, Spec.step, Out.ofObj,
+      Out.toA, Out.ObjLowered]
+    exact ⟨h, by rw [(rel_iff.1 hu).2], hu.inv, (hu.lowered).2 hlm⟩
+  | pickleLegacy =>
+    cases hm : m with
+    | nil =>
+      subst hm
+      simp only [LOD.step, LOD.unpickleLegacy, h.items, Op.toA, AOp.lower, Spec.step, Out.ofObj, Out.toA,
+        Out.ObjLowered]
+      exact ⟨h, rfl, trivial⟩
+    | cons p t =>
+      have hfp : Spec.fromPairs (m.map (lo lower)) = m := by
+        rw [map_lo_of_lowered hlm, fromPairs_self m h.nodupM]
+      have hu := Rel.rawFilled m h.nodupM
+      have hi := h.items
+      rw [hm] at hu hi hfp
+      have hlm' : LoweredM lower (p :: t) := hm ▸ hlm
+      simp only [LOD.step, LOD.unpickleLegacy, hi, LOD.update_eq hl, hfp, Op.toA, AOp.lower, Spec.step, Out.ofObj,
+        Out.toA, Out.ObjLowered]
+      exact ⟨hm ▸ h, by simp [(rel_iff.1 hu).2], hu.inv, (hu.lowered).2 hlm'⟩
 
 /-- the call with every literal key argument rewritten by `f` (e.g. upper-cased, capitalised, …) -/
 def Op.mapKeys (f : K → K) : Op K V → Op K V
@@ -395,6 +447,8 @@ theorem C39_lodict_case_insensitive (f : K → K) (hf : ∀ k, lower (f k) = low
   | or ps =>
     simp only [Op.mapKeys, LOD.step, LOD.update, LOD.setitem, List.foldl_map, hf]
   | reversed => rfl
+  | pickle => rfl
+  | pickleLegacy => rfl
   | sift fs =>
     cases fs with
     | none => rfl
